@@ -194,6 +194,13 @@ def calls(seed: int) -> dict[str, Callable[[], Any]]:
     pub_in = [(mult(d[0]), in_keys[0][1]), (mult(d[1]), in_keys[1][1])]
     labels = sp.label_lookup(b_scan, [1, 2])
     c["sp.scan"] = lambda: sp.scan_transaction_outputs(b_scan, B_spend, ops, pub_in, outs, labels)
+    # a taproot input's key handed with either ordinate (BIP352 reads it off the script, x-only)
+    for parity in (0, 1):
+        dk = d[1] if mult(d[1])[1] % 2 == parity else n - d[1]
+        ik = [in_keys[0], (dk, b"\x51\x20" + mult(dk)[0].to_bytes(32, "big"))]
+        po = [pub_in[0], (mult(dk), ik[1][1])]
+        oo = sp.output_keys(ik, ops, [addr, laddr])
+        c[f"sp.scan|taproot input given with {'odd' if parity else 'even'} y"] = lambda po=po, oo=oo: sp.scan_transaction_outputs(b_scan, B_spend, ops, po, oo, labels)
     c["sp.scan|reversed outputs"] = lambda: sp.scan_transaction_outputs(b_scan, B_spend, ops, pub_in, outs[::-1], labels)
     c["sp.scan|no labels"] = lambda: sp.scan_transaction_outputs(b_scan, B_spend, ops, pub_in, outs)
     c["sp.scan|decoys"] = lambda: sp.scan_transaction_outputs(b_scan, B_spend, ops, pub_in, [Q[0].to_bytes(32, "big")] + outs + [Q2[0].to_bytes(32, "big")], labels)
